@@ -92,6 +92,7 @@ type interpreter struct {
 	w                  *Worker
 	onceDone           map[*value]bool
 	closedGlobal       map[chan value]bool
+	zeroBase           map[string]*value
 	depth              int
 }
 
@@ -295,8 +296,23 @@ func visitInstr(fr *frame, instr ssa.Instruction) continuation {
 		var addr *value
 		if instr.Heap {
 			// new
-			addr = new(value)
-			fr.env[instr] = addr
+			et := mustDeref(instr.Type())
+			if isZeroSize(et) {
+				// gc gives every zero-size heap object the same address
+				// (runtime.zerobase); code that compares such pointers
+				// (e.g. against a global &T{}) relies on it.
+				key := et.String()
+				if zp, ok := fr.i.zeroBase[key]; ok {
+					fr.env[instr] = zp
+					break
+				}
+				addr = new(value)
+				fr.i.zeroBase[key] = addr
+				fr.env[instr] = addr
+			} else {
+				addr = new(value)
+				fr.env[instr] = addr
+			}
 		} else {
 			// local
 			addr = fr.env[instr].(*value)
@@ -343,12 +359,20 @@ func visitInstr(fr *frame, instr ssa.Instruction) continuation {
 		idx := fr.get(instr.Index)
 		switch x := x.(type) {
 		case []value:
+			if sp, ok := lazyElemPtr(fr, instr, x, idx); ok {
+				fr.env[instr] = sp
+				break
+			}
 			fr.env[instr] = &x[fr.i.path.forkIndex(idx, len(x), "slice index")]
 		case *value: // *array
 			if x == nil {
 				panic(targetRuntimeError{"invalid memory address or nil pointer dereference"})
 			}
 			a := (*x).(array)
+			if sp, ok := lazyElemPtr(fr, instr, a, idx); ok {
+				fr.env[instr] = sp
+				break
+			}
 			fr.env[instr] = &a[fr.i.path.forkIndex(idx, len(a), "array index")]
 		default:
 			panic(fmt.Sprintf("unexpected x type in IndexAddr: %T", x))
@@ -451,8 +475,10 @@ func call(i *interpreter, caller *frame, callpos token.Pos, fn value, args []val
 		return callSSA(i, caller, callpos, fn.Fn, args, fn.Env)
 	case *ssa.Builtin:
 		return callBuiltin(caller, callpos, fn, args)
+	case nativeFn:
+		return fn(caller, args)
 	}
-	panic(fmt.Sprintf("cannot call %T", fn))
+	panic(engineBug{fmt.Sprintf("cannot call %T", fn)})
 }
 
 func loc(fset *token.FileSet, pos token.Pos) string {
@@ -520,6 +546,53 @@ func callSSA(i *interpreter, caller *frame, callpos token.Pos, fn *ssa.Function,
 		runFrame(fr)
 	}
 	return fr.result
+}
+
+// symElemPtr is &elems[idx] for a symbolic idx whose only use is a load:
+// the load becomes an if-then-else chain instead of a fork per element.
+type symElemPtr struct {
+	elems []value
+	idx   symInt
+}
+
+func lazyElemPtr(fr *frame, instr *ssa.IndexAddr, elems []value, idx value) (value, bool) {
+	si, ok := idx.(symInt)
+	if !ok || len(elems) < 3 {
+		return nil, false
+	}
+	refs := instr.Referrers()
+	if refs == nil || len(*refs) != 1 {
+		return nil, false
+	}
+	u, ok := (*refs)[0].(*ssa.UnOp)
+	if !ok || u.Op != token.MUL {
+		return nil, false
+	}
+	k0, ok := intKind(elems[0])
+	if !ok {
+		return nil, false
+	}
+	for _, e := range elems {
+		if k, ok := intKind(e); !ok || k != k0 {
+			return nil, false
+		}
+	}
+	return symElemPtr{elems, si}, true
+}
+
+func isZeroSize(t types.Type) bool {
+	switch u := t.Underlying().(type) {
+	case *types.Struct:
+		for i := 0; i < u.NumFields(); i++ {
+			if !isZeroSize(u.Field(i).Type()) {
+				return false
+			}
+		}
+		return true
+	case *types.Array:
+		return u.Len() == 0 || isZeroSize(u.Elem())
+	}
+	return false
 }
 
 // isEngineAbort reports whether a recovered panic value belongs to the
@@ -701,6 +774,7 @@ func newInterpreter(ld *Loaded, w *Worker) *interpreter {
 		runtimeErrorString: ld.runtimeErrStr,
 		onceDone:           map[*value]bool{},
 		closedGlobal:       map[chan value]bool{},
+		zeroBase:           map[string]*value{},
 	}
 	for _, pkg := range i.prog.AllPackages() {
 		for _, m := range pkg.Members {
